@@ -135,7 +135,19 @@ def as_rows(rows, op):
 def apply_impl(g, op):
     k = op[0]
     if k == 'getsprite':
-        return 'ok ' + rows_arg(g.gfx.get_sprite(op[1], op[2], op[3]))
+        pic = g.gfx.get_sprite(op[1], op[2], op[3])
+        out = 'ok ' + rows_arg(pic)
+        # the picture is the caller's to edit: its rows are independent of each other and of the cart
+        if len(pic) > 1 and len(pic[0]) > 0:
+            try:
+                before = [bytes(r) for r in pic]
+                pic[len(pic) - 1][0] = (pic[len(pic) - 1][0] + 1) % 16
+                changed = [i for i, r in enumerate(pic[:-1]) if bytes(r) != before[i]]
+                if changed:
+                    return 'ok ALIASED-ROWS %s' % changed[:4]
+            except TypeError:
+                pass        # immutable rows cannot alias observably
+        return out
     if k == 'setsprite':
         g.gfx.set_sprite(op[1], as_rows(op[4], op), tile_x_offset=op[2], tile_y_offset=op[3]); return None
     if k == 'getcell':
@@ -143,7 +155,17 @@ def apply_impl(g, op):
     if k == 'setcell':
         g.map.set_cell(op[1], op[2], op[3]); return None
     if k == 'getrect':
-        return 'ok ' + rows_arg(g.map.get_rect_tiles(op[1], op[2], op[3], op[4]))
+        rect = g.map.get_rect_tiles(op[1], op[2], op[3], op[4])
+        out = 'ok ' + rows_arg(rect)
+        if len(rect) > 1 and len(rect[0]) > 0:
+            try:
+                before = [bytes(r) for r in rect]
+                rect[len(rect) - 1][0] = (rect[len(rect) - 1][0] + 1) % 256
+                if any(bytes(r) != before[i] for i, r in enumerate(rect[:-1])):
+                    return 'ok ALIASED-ROWS'
+            except TypeError:
+                pass
+        return out
     if k == 'setrect':
         g.map.set_rect_tiles(as_rows(op[3], op), op[1], op[2]); return None
     if k == 'getflags':
